@@ -1,5 +1,6 @@
 import GeomV.C05.Tie
 import GeomV.C05.ProofsStream
+import GeomV.C05.FillAdd
 /-!
 # C05 — T1 tie of the STREAMING path: `wkb.Read(r io.Reader)` as regenerated from the Go source
 
@@ -33,8 +34,10 @@ def errX (E : SErr) : Err → SErr
   | .eof => E
   | e => .wkb e
 
-/-- reader states: the script delivers exactly `bs` before its first error, whose class is `E` -/
-def RS (E : SErr) (s : Script) (bs : Bytes) : Prop := avail s = bs ∧ short (firstErr s) = E
+/-- reader states: the script delivers exactly `bs` before its first error, whose class is `E`; and it is what
+successful `io.ReadFull` calls have left of the reader `s₀` the call started from (`Stream.Reach`: by additivity of
+`io.ReadFull` that is a function of `s₀` and of the number of bytes consumed, however they were asked for) -/
+def RS (E : SErr) (s₀ : Script) (s : Script) (bs : Bytes) : Prop := avail s = bs ∧ short (firstErr s) = E ∧ Reach s₀ s
 
 def RelX {α₁ α₂ : Type} (E : SErr) (Q : α₁ → α₂ → Prop) (x : Except SErr α₁) (y : Except Err α₂) : Prop :=
   match y with
@@ -42,9 +45,9 @@ def RelX {α₁ α₂ : Type} (E : SErr) (Q : α₁ → α₂ → Prop) (x : Exc
   | .error e => x = .error (errX E e)
 
 /-- value and reader state -/
-def QV {α : Type} (E : SErr) (a : α × Script) (b : α × Bytes) : Prop := a.1 = b.1 ∧ RS E a.2 b.2
+def QV {α : Type} (E : SErr) (s₀ : Script) (a : α × Script) (b : α × Bytes) : Prop := a.1 = b.1 ∧ RS E s₀ a.2 b.2
 
-variable {E : SErr}
+variable {E : SErr} {s₀ : Script}
 
 theorem relX_pure {α₁ α₂ : Type} {Q : α₁ → α₂ → Prop} {a : α₁} {b : α₂} (h : Q a b) :
     RelX E Q (pure a : Except SErr α₁) (pure b : Except Err α₂) := ⟨a, rfl, h⟩
@@ -107,8 +110,8 @@ def Frame {α : Type} (k : Nat) (rd : Bytes → Except Err (α × Bytes)) : Prop
   (∀ bs, bs.length < k → rd bs = .error .eof) ∧ (∀ a, a.length = k → ∃ v, ∀ r, rd (a ++ r) = .ok (v, r))
 
 theorem binS_rel {α : Type} (k : Nat) (rd : Bytes → Except Err (α × Bytes)) (hF : Frame k rd)
-    (s : Script) (bs : Bytes) (h : RS E s bs) : RelX E (QV E) (binS scriptSrc k rd s) (rd bs) := by
-  obtain ⟨rfl, rfl⟩ := h
+    (s : Script) (bs : Bytes) (h : RS E s₀ s bs) : RelX E (QV E s₀) (binS scriptSrc k rd s) (rd bs) := by
+  obtain ⟨rfl, rfl, hreach⟩ := h
   have hs := fill_spec s k []
   by_cases hlt : (avail s).length < k
   · have h1 := hs.1 hlt
@@ -126,7 +129,7 @@ theorem binS_rel {α : Type} (k : Nat) (rd : Bytes → Except Err (α × Bytes))
       rwa [List.append_nil] at this
     simp only [List.nil_append] at hfill
     simp only [binS, scriptSrc, hfill, h3, h2, RelX]
-    exact ⟨(v, s'), rfl, rfl, hav, by rw [hfe]⟩
+    exact ⟨(v, s'), rfl, rfl, hav, by rw [hfe], reach_step hreach hfill⟩
 
 theorem frame_u8 (bo : BO) : Frame 1 (binReadU8 bo) := by
   refine ⟨fun bs h => ?_, fun a h => ?_⟩
@@ -196,10 +199,10 @@ theorem frame_points (bo : BO) (dst : List (Pt UInt64)) : Frame (16 * dst.length
 theorem asGeom_ne (g : BGeom) : asGeom g ≠ .error .eof := by cases g <;> simp [asGeom]
 
 /-- `Read`/a reader function behind a scripted reader against the slice function -/
-def RelRead (E : SErr) (X : ReadFnS Script) (Y : ReadFn) : Prop :=
-  ∀ s bs, RS E s bs → RelX E (QV E) (X s) (Y bs)
+def RelRead (E : SErr) (s₀ : Script) (X : ReadFnS Script) (Y : ReadFn) : Prop :=
+  ∀ s bs, RS E s₀ s bs → RelX E (QV E s₀) (X s) (Y bs)
 
-theorem pointReader_rel (bo : BO) : RelRead E (Gen.pointReaderS scriptSrc bo) (Gen.pointReader bo) := by
+theorem pointReader_rel (bo : BO) : RelRead E s₀ (Gen.pointReaderS scriptSrc bo) (Gen.pointReader bo) := by
   intro s bs h
   unfold Gen.pointReaderS Gen.pointReader
   refine relX_bind (binS_rel 16 _ (frame_point bo) s bs h) ?_
@@ -208,15 +211,15 @@ theorem pointReader_rel (bo : BO) : RelRead E (Gen.pointReaderS scriptSrc bo) (G
   subst hv
   exact relX_pure ⟨rfl, hr⟩
 
-theorem readPoints_rel (bo : BO) (s : Script) (bs : Bytes) (h : RS E s bs) :
-    RelX E (QV E) (Gen.readPointsS scriptSrc bo s) (Gen.readPoints bo bs) := by
+theorem readPoints_rel (bo : BO) (s : Script) (bs : Bytes) (h : RS E s₀ s bs) :
+    RelX E (QV E s₀) (Gen.readPointsS scriptSrc bo s) (Gen.readPoints bo bs) := by
   unfold Gen.readPointsS Gen.readPoints
   refine relX_bind (binS_rel 4 _ (frame_u32 bo) s bs h) ?_
   rintro ⟨n, s'⟩ ⟨n', bs'⟩ ⟨hv, hr⟩
   simp only at hv
   subst hv
   refine relX_bind (Q := fun (a : Nat × List (Pt UInt64) × Script) (b : Nat × List (Pt UInt64) × Bytes) =>
-      a.1 = b.1 ∧ a.2.1 = b.2.1 ∧ RS E a.2.2 b.2.2)
+      a.1 = b.1 ∧ a.2.1 = b.2.1 ∧ RS E s₀ a.2.2 b.2.2)
     (whileLoop_rel ?_ ?_ _ _ _ ⟨rfl, rfl, hr⟩) ?_
   · rintro ⟨r, p, t⟩ ⟨r', p', t'⟩ ⟨h1, h2, h3⟩
     simp only at h1
@@ -235,7 +238,7 @@ theorem readPoints_rel (bo : BO) (s : Script) (bs : Bytes) (h : RS E s bs) :
     subst h2
     exact relX_pure ⟨rfl, h3⟩
 
-theorem lineStringReader_rel (bo : BO) : RelRead E (Gen.lineStringReaderS scriptSrc bo) (Gen.lineStringReader bo) := by
+theorem lineStringReader_rel (bo : BO) : RelRead E s₀ (Gen.lineStringReaderS scriptSrc bo) (Gen.lineStringReader bo) := by
   intro s bs h
   unfold Gen.lineStringReaderS Gen.lineStringReader
   refine relX_bind (readPoints_rel bo s bs h) ?_
@@ -244,14 +247,14 @@ theorem lineStringReader_rel (bo : BO) : RelRead E (Gen.lineStringReaderS script
   subst hv
   exact relX_pure ⟨rfl, hr⟩
 
-theorem polygonReader_rel (bo : BO) : RelRead E (Gen.polygonReaderS scriptSrc bo) (Gen.polygonReader bo) := by
+theorem polygonReader_rel (bo : BO) : RelRead E s₀ (Gen.polygonReaderS scriptSrc bo) (Gen.polygonReader bo) := by
   intro s bs h
   unfold Gen.polygonReaderS Gen.polygonReader
   refine relX_bind (binS_rel 4 _ (frame_u32 bo) s bs h) ?_
   rintro ⟨n, s'⟩ ⟨n', bs'⟩ ⟨hv, hr⟩
   simp only at hv
   subst hv
-  refine relX_bind (Q := QV E) (loopN_rel ?_ _ _ _ ⟨rfl, hr⟩) ?_
+  refine relX_bind (Q := QV E s₀) (loopN_rel ?_ _ _ _ ⟨rfl, hr⟩) ?_
   · rintro ⟨p, t⟩ ⟨p', t'⟩ ⟨h1, h2⟩
     simp only at h1 h2
     subst h1
@@ -267,10 +270,10 @@ theorem polygonReader_rel (bo : BO) : RelRead E (Gen.polygonReaderS scriptSrc bo
 
 /-- the common shape of the three Multi* readers and the collection reader: count, then `count` times
 `Read` + a type assertion -/
-theorem members_rel {β : Type} (bo : BO) (X : ReadFnS Script) (Y : ReadFn) (hR : RelRead E X Y)
+theorem members_rel {β : Type} (bo : BO) (X : ReadFnS Script) (Y : ReadFn) (hR : RelRead E s₀ X Y)
     (cast : BGeom → Except Err β) (hcast : ∀ g, cast g ≠ .error .eof) (k : List β → BGeom)
-    (s : Script) (bs : Bytes) (h : RS E s bs) :
-    RelX E (QV E)
+    (s : Script) (bs : Bytes) (h : RS E s₀ s bs) :
+    RelX E (QV E s₀)
       (do
         let (n, bs) ← binReadU32S scriptSrc bo s
         let xs : List β := ([] : List β)
@@ -293,7 +296,7 @@ theorem members_rel {β : Type} (bo : BO) (X : ReadFnS Script) (Y : ReadFn) (hR 
   rintro ⟨n, s'⟩ ⟨n', bs'⟩ ⟨hv, hr⟩
   simp only at hv
   subst hv
-  refine relX_bind (Q := QV E) (loopN_rel ?_ _ _ _ ⟨rfl, hr⟩) ?_
+  refine relX_bind (Q := QV E s₀) (loopN_rel ?_ _ _ _ ⟨rfl, hr⟩) ?_
   · rintro ⟨p, t⟩ ⟨p', t'⟩ ⟨h1, h2⟩
     simp only at h1 h2
     subst h1
@@ -309,33 +312,33 @@ theorem members_rel {β : Type} (bo : BO) (X : ReadFnS Script) (Y : ReadFn) (hR 
     subst h1
     exact relX_pure ⟨rfl, h2⟩
 
-theorem multiPointReader_rel (X : ReadFnS Script) (Y : ReadFn) (hR : RelRead E X Y) (bo : BO) :
-    RelRead E (Gen.multiPointReaderS scriptSrc X bo) (Gen.multiPointReader Y bo) :=
+theorem multiPointReader_rel (X : ReadFnS Script) (Y : ReadFn) (hR : RelRead E s₀ X Y) (bo : BO) :
+    RelRead E s₀ (Gen.multiPointReaderS scriptSrc X bo) (Gen.multiPointReader Y bo) :=
   fun s bs h => members_rel bo X Y hR asPoint asPoint_ne .multiPoint s bs h
 
-theorem multiLineStringReader_rel (X : ReadFnS Script) (Y : ReadFn) (hR : RelRead E X Y) (bo : BO) :
-    RelRead E (Gen.multiLineStringReaderS scriptSrc X bo) (Gen.multiLineStringReader Y bo) :=
+theorem multiLineStringReader_rel (X : ReadFnS Script) (Y : ReadFn) (hR : RelRead E s₀ X Y) (bo : BO) :
+    RelRead E s₀ (Gen.multiLineStringReaderS scriptSrc X bo) (Gen.multiLineStringReader Y bo) :=
   fun s bs h => members_rel bo X Y hR asLine asLine_ne .multiLineString s bs h
 
-theorem multiPolygonReader_rel (X : ReadFnS Script) (Y : ReadFn) (hR : RelRead E X Y) (bo : BO) :
-    RelRead E (Gen.multiPolygonReaderS scriptSrc X bo) (Gen.multiPolygonReader Y bo) :=
+theorem multiPolygonReader_rel (X : ReadFnS Script) (Y : ReadFn) (hR : RelRead E s₀ X Y) (bo : BO) :
+    RelRead E s₀ (Gen.multiPolygonReaderS scriptSrc X bo) (Gen.multiPolygonReader Y bo) :=
   fun s bs h => members_rel bo X Y hR asPoly asPoly_ne .multiPolygon s bs h
 
-theorem geometryCollectionReader_rel (X : ReadFnS Script) (Y : ReadFn) (hR : RelRead E X Y) (bo : BO) :
-    RelRead E (Gen.geometryCollectionReaderS scriptSrc X bo) (Gen.geometryCollectionReader Y bo) :=
+theorem geometryCollectionReader_rel (X : ReadFnS Script) (Y : ReadFn) (hR : RelRead E s₀ X Y) (bo : BO) :
+    RelRead E s₀ (Gen.geometryCollectionReaderS scriptSrc X bo) (Gen.geometryCollectionReader Y bo) :=
   fun s bs h => members_rel bo X Y hR asGeom asGeom_ne .collection s bs h
 
 /-! ### the dispatch table and `Read` -/
 
 /-- two dispatch tables with the same keys and related readers, entry by entry -/
-def RelTab (E : SErr) : List (Nat × ReaderFnS Script) → List (Nat × ReaderFn) → Prop
+def RelTab (E : SErr) (s₀ : Script) : List (Nat × ReaderFnS Script) → List (Nat × ReaderFn) → Prop
   | [], [] => True
-  | a :: as, b :: bs => a.1 = b.1 ∧ (∀ bo, RelRead E (a.2 bo) (b.2 bo)) ∧ RelTab E as bs
+  | a :: as, b :: bs => a.1 = b.1 ∧ (∀ bo, RelRead E s₀ (a.2 bo) (b.2 bo)) ∧ RelTab E s₀ as bs
   | _, _ => False
 
-theorem mapGet_rel : ∀ (t₁ : List (Nat × ReaderFnS Script)) (t₂ : List (Nat × ReaderFn)) (code : Nat), RelTab E t₁ t₂ →
+theorem mapGet_rel : ∀ (t₁ : List (Nat × ReaderFnS Script)) (t₂ : List (Nat × ReaderFn)) (code : Nat), RelTab E s₀ t₁ t₂ →
     match mapGet t₁ code, mapGet t₂ code with
-    | some r₁, some r₂ => ∀ bo, RelRead E (r₁ bo) (r₂ bo)
+    | some r₁, some r₂ => ∀ bo, RelRead E s₀ (r₁ bo) (r₂ bo)
     | none, none => True
     | _, _ => False
   | [], [], _, _ => by simp [mapGet]
@@ -352,15 +355,15 @@ theorem mapGet_rel : ∀ (t₁ : List (Nat × ReaderFnS Script)) (t₂ : List (N
       exact hv
     · exact ih
 
-theorem wkbReaders_rel (X : ReadFnS Script) (Y : ReadFn) (hR : RelRead E X Y) :
-    RelTab E (Gen.wkbReadersS scriptSrc X) (Gen.wkbReaders Y) := by
+theorem wkbReaders_rel (X : ReadFnS Script) (Y : ReadFn) (hR : RelRead E s₀ X Y) :
+    RelTab E s₀ (Gen.wkbReadersS scriptSrc X) (Gen.wkbReaders Y) := by
   unfold Gen.wkbReadersS Gen.wkbReaders
   exact ⟨rfl, pointReader_rel, rfl, lineStringReader_rel, rfl, polygonReader_rel,
     rfl, multiPointReader_rel X Y hR, rfl, multiLineStringReader_rel X Y hR, rfl, multiPolygonReader_rel X Y hR,
     rfl, geometryCollectionReader_rel X Y hR, trivial⟩
 
-theorem Read_rel (X : ReadFnS Script) (Y : ReadFn) (hR : RelRead E X Y) :
-    RelRead E (Gen.ReadS scriptSrc X) (Gen.Read Y) := by
+theorem Read_rel (X : ReadFnS Script) (Y : ReadFn) (hR : RelRead E s₀ X Y) :
+    RelRead E s₀ (Gen.ReadS scriptSrc X) (Gen.Read Y) := by
   intro s bs h
   unfold Gen.ReadS Gen.Read
   refine relX_bind (binS_rel 1 _ (frame_u8 .ndr) s bs h) ?_
@@ -385,7 +388,7 @@ theorem Read_rel (X : ReadFnS Script) (Y : ReadFn) (hR : RelRead E X Y) :
     · exact relX_throw _ (by decide)
     · exact hm bo t t' ht
 
-theorem readS_rel (fuel : Nat) : RelRead E (Gen.readS scriptSrc fuel) (Gen.read fuel) := by
+theorem readS_rel (fuel : Nat) : RelRead E s₀ (Gen.readS scriptSrc fuel) (Gen.read fuel) := by
   induction fuel with
   | zero => intro s bs h; simp [Gen.readS, Gen.read, RelX, errX]
   | succ f ih => exact Read_rel _ _ ih
@@ -403,18 +406,35 @@ first error: the same geometry, leaving a reader that delivers exactly what `Gen
 rejection; and where `Gen.read` runs out of input, the reader's own first error. -/
 theorem C05_stream_gen (fuel : Nat) : Transfers (Gen.readS scriptSrc fuel) (Gen.read fuel) := by
   intro s
-  have h := GenS.readS_rel (E := short (firstErr s)) fuel s (avail s) ⟨rfl, rfl⟩
+  have h := GenS.readS_rel (E := short (firstErr s)) (s₀ := s) fuel s (avail s) ⟨rfl, rfl, reach_refl s⟩
   cases hm : Gen.read fuel (avail s) with
   | ok p =>
     obtain ⟨a, r⟩ := p
     simp only [hm, RelX] at h
-    obtain ⟨⟨a', s'⟩, hx, ha, hr1, hr2⟩ := h
+    obtain ⟨⟨a', s'⟩, hx, ha, hr1, hr2, _⟩ := h
     simp only at ha hr1 hr2
     subst ha
     exact ⟨s', hx, hr1, hr2⟩
   | error x =>
     simp only [hm, RelX] at h
     cases x <;> simpa [errX] using h
+
+/-- the reader a successful regenerated streaming `Read` leaves behind is what `io.ReadFull` calls leave of the
+reader it was given (`Stream.Reach`) -/
+theorem stream_gen_reach (fuel : Nat) (s s' : Script) (g : BGeom) (h : Gen.readS scriptSrc fuel s = .ok (g, s')) :
+    Reach s s' := by
+  have hr := GenS.readS_rel (E := short (firstErr s)) (s₀ := s) fuel s (avail s) ⟨rfl, rfl, reach_refl s⟩
+  cases hm : Gen.read fuel (avail s) with
+  | ok p =>
+    simp only [hm, RelX] at hr
+    obtain ⟨⟨a', s''⟩, hx, _, _, _, hreach⟩ := hr
+    rw [h] at hx
+    cases hx
+    exact hreach
+  | error x =>
+    simp only [hm, RelX] at hr
+    rw [h] at hr
+    cases hr
 
 /-- the same against the hand-written model (`tie_read`) -/
 theorem C05_stream_gen_model (fuel : Nat) : Transfers (Gen.readS scriptSrc fuel) (read fuel) := by
